@@ -2,6 +2,7 @@ package node
 
 import (
 	"fmt"
+	"math/big"
 
 	"github.com/freeconf/yang/meta"
 	"github.com/freeconf/yang/val"
@@ -103,11 +104,8 @@ func (xp xpathImpl) resolveOperator(oper *xpath.Operator, ident string, s *Selec
 	if !hasType {
 		return false, fmt.Errorf("'%s' is not a leaf, cannot compare in xpath", ident)
 	}
-	b, err := NewValue(typed.Type(), oper.Lhs)
-	if err != nil {
-		return false, err
-	}
-	s, err = s.Find(ident)
+	b, convErr := NewValue(typed.Type(), oper.Lhs)
+	s, err := s.Find(ident)
 	if err != nil {
 		return false, err
 	}
@@ -118,6 +116,29 @@ func (xp xpathImpl) resolveOperator(oper *xpath.Operator, ident string, s *Selec
 	if a == nil {
 		// no value, no comparison holds
 		return false, nil
+	}
+	if convErr != nil {
+		// a number the type of the leaf cannot hold still is smaller or larger than
+		// the value of the leaf
+		c, numeric := compareNumbers(a, oper.Lhs)
+		if !numeric {
+			return false, convErr
+		}
+		switch oper.Oper {
+		case "=":
+			return c == 0, nil
+		case "!=":
+			return c != 0, nil
+		case "<":
+			return c < 0, nil
+		case ">":
+			return c > 0, nil
+		case ">=":
+			return c >= 0, nil
+		case "<=":
+			return c <= 0, nil
+		}
+		return false, fmt.Errorf("unrecognized operator: %s", oper.Oper)
 	}
 	switch oper.Oper {
 	case "=":
@@ -158,4 +179,22 @@ func (xp xpathImpl) resolveAbsolutePath(s *Selection) (*Selection, error) {
 		}
 	}
 	return found, nil
+}
+
+// compareNumbers orders the value of a numeric leaf and a numeric literal as numbers
+func compareNumbers(a val.Value, literal interface{}) (int, bool) {
+	switch a.Format() {
+	case val.FmtInt8, val.FmtInt16, val.FmtInt32, val.FmtInt64, val.FmtUInt8, val.FmtUInt16, val.FmtUInt32, val.FmtUInt64, val.FmtDecimal64:
+	default:
+		return 0, false
+	}
+	x, valid := new(big.Rat).SetString(a.String())
+	if !valid {
+		return 0, false
+	}
+	y, valid := new(big.Rat).SetString(fmt.Sprint(literal))
+	if !valid {
+		return 0, false
+	}
+	return x.Cmp(y), true
 }
